@@ -136,10 +136,16 @@ def build_set(cfg, tier, log=None):
     groups = [normal[k::ngroups] for k in range(ngroups)]
     for k, members in enumerate(groups):
         units.append((f"grp{k}", g.group_source(k, members), "group", members))
+    small = []  # small typed sets share TUs (4 compositions each)
     for i, t in normal:
         for part in g.typed_parts(t, tier):
-            units.append((f"typed{i}_{part}", g.typed_source(i, t, part, g.typed_mask(t, poly_any_ok, any_tracked_ok)),
-                          "typed", (i, t, part)))
+            mask = g.typed_mask(t, poly_any_ok, any_tracked_ok)
+            if part == "m":
+                small.append((i, t, part, mask))
+            else:
+                units.append((f"typed{i}_{part}", g.typed_source(i, t, part, mask), "typed", (i, t, part)))
+    for k in range(0, len(small), 4):
+        units.append((f"typedg{k}", g.typed_group_source(k, small[k:k + 4]), "typedg", small[k:k + 4]))
     # informational: one representative of every inheritance clash pattern
     reps = {}
     for i, t in clash:
@@ -157,7 +163,7 @@ def build_set(cfg, tier, log=None):
         return res
 
     res = run_units(units)
-    objs, reg_base, reg_typed = [], [], []
+    objs, reg_base, reg_typed, retyped = [], [], [], []
     clash_info = {}
     reprobe = []
     for name, src, kind, payload in units:
@@ -171,6 +177,12 @@ def build_set(cfg, tier, log=None):
                 reg_base.append(f"adapt_register_group_{name[3:]}")
             else:
                 reprobe.append((name, payload))
+        elif kind == "typedg":
+            if ok:
+                objs.append(o)
+                reg_typed.append((-1, f"adapt_typedg_{name[6:]}"))
+            else:
+                retyped.extend(payload)
         elif kind == "typed":
             i, t, part = payload
             if ok:
@@ -180,6 +192,19 @@ def build_set(cfg, tier, log=None):
                 em = g.Emit()
                 failures.append((TAG_TYPED, g.name(t), em.go(t)[0] + f" with the typed helpers (value size {part})", _first_error(out)))
     info["clash_patterns"] = clash_info
+
+    # typed groups that failed: compile their members one by one
+    if retyped:
+        singles = [(f"typed{i}_{part}", g.typed_source(i, t, part, mask), "typed", (i, t, part)) for i, t, part, mask in retyped]
+        sres = run_units(singles)
+        for sname, src, kind, (i, t, part) in singles:
+            ok, out, o = sres[sname]
+            if ok:
+                objs.append(o)
+                reg_typed.append((i, f"adapt_typed_{i}_{part}"))
+            else:
+                em = g.Emit()
+                failures.append((TAG_TYPED, g.name(t), em.go(t)[0] + f" with the typed helpers (value set {part})", _first_error(out)))
 
     # groups that failed: find the members that do not compile, rebuild the group without them
     bad_idx = set()
